@@ -28,6 +28,9 @@ MAP = [  # (substring of the commit subject, property)
  ("xsi:type could substitute a value of any registered class", "C04"),
  ("xsi:type derivation check accepted", "C04"),
  ("xsi:type could swap one array type for another", "C04"),
+ ("auxiliary service before the primary one of the same method name raised TypeError", "C11"),
+ ("second method answering to the same public name of a service was dropped silently", "C11"),
+ ("HttpPattern without an address matched its method name as a regular expression", "C11"),
  ("NullServer never closed the context of a call that ended in an error", "C14"),
  ("NullServer call to an unknown method left its announced context open", "C14"),
  ("NullServer(ostr=True) fired no method_exception_object", "C14"),
@@ -39,6 +42,7 @@ MAP = [  # (substring of the commit subject, property)
  ("bare methods over the dict protocols crashed on a simple-typed argument", "C10"),
  ("Date type with a custom format raised AttributeError", "C10"),
  ("duration too large for timedelta escaped", "C10"),
+ ("duration pattern accepted any character as the decimal point", "C10"),
  ("JSON request declaring an unknown charset escaped", "C10"),
  ("attachment lacking Content-ID raised AttributeError", "C10"),
  ("multipart/related SOAP requests with an empty body or a non-ascii root part", "C10"),
